@@ -218,7 +218,7 @@ stream_begin(struct stream *s, const char *name, int ws) {
   stream_add(s, csm);
 }
 
-#define NSTREAMS 9
+#define NSTREAMS 10
 static struct stream streams[NSTREAMS];
 static int nstreams;
 
@@ -239,6 +239,13 @@ build_streams(void) {
   stream_add(s, mk(0x02, 1, 2, 5));   /* Len 14-form (>= 269) */
   stream_add(s, mk(0x03, 270, 0, 1)); /* ext token 2 bytes */
   stream_add(s, mk(0x01, 0, 0, 0));
+  s->expect_msgs = 3;
+  /* T2b: the crossed forms: 14-form length together with 1-byte and 2-byte extended tokens, 13-form with the 2-byte one */
+  s = &streams[nstreams++];
+  stream_begin(s, "tcp-cross", 0);
+  stream_add(s, mk(0x02, 13, 2, 5));  /* Len 14-form + ext token 1 byte */
+  stream_add(s, mk(0x03, 270, 2, 4)); /* Len 14-form + ext token 2 bytes */
+  stream_add(s, mk(0x01, 269, 1, 2)); /* Len 13-form + ext token 2 bytes (smallest) */
   s->expect_msgs = 3;
   /* T3: a message that makes one read return exactly the 1472-byte buffer, followed by a short one */
   s = &streams[nstreams++];
@@ -914,10 +921,10 @@ main(int argc, char **argv) {
   vx_ev_int("reader_states", (long long)vxp_counter(1));
   vx_ev_int("reader_state_transitions", (long long)vxp_counter(2));
   vx_ev_rule("a real libcoap TCP / WebSocket server session fed a fixed valid byte stream (CSM or HTTP upgrade + 3-5 messages covering TCP length "
-             "forms 0-12/13/14, tokens 0/8/ext-1B/ext-2B, WS 7/16/64-bit masked frames, a read that fills the 1472-byte buffer, an oversize "
+             "forms 0-12/13/14, tokens 0/8/ext-1B/ext-2B and their cross combinations, WS 7/16/64-bit masked frames, a read that fills the 1472-byte buffer, an oversize "
              "declared length, an over-long handshake line, legal handshake lines of 147 and 159 bytes, a short WebSocket stream) under (1) every placement of <= k "
              "cuts (k = 2, thorough 3 for streams <= 330 bytes; the long-line streams k = 1 in quick), byte-wise and single-chunk, (2) all "
-             "2^(N-1) segmentations via BFS over reader states: in quick for the streams tcp-short, tcp-long, tcp-oversize, ws-small, "
+             "2^(N-1) segmentations via BFS over reader states: in quick for the streams tcp-short, tcp-long, tcp-cross, tcp-oversize, ws-small, "
              "ws-longline; in thorough for all streams (tcp-fullbuf about 80 s, ws-frames about 750 s); a search that meets the deadline or "
              "the node cap is reported in cap_hit; distinct = distinct cut sets");
   vx_ev_assumption("server side of the stream only (unmasked client-direction WS frames are not exercised)");
